@@ -727,7 +727,7 @@ impl ChildPath {
 impl Parse for GhostData {
     fn parse(input: ParseStream) -> Result<Self> {
         let child_path = if !peek_ghost_field_name(input) {
-            let child_path = Some(Punctuated::parse_separated_nonempty(input)?).map(|child_path| {
+            let child_path = Some(Punctuated::parse_separated_nonempty_with(input, parse_member)?).map(|child_path| {
                 let child_path_str = build_child_path_str(&child_path);
                 ChildPath { child_path, child_path_str }
             });
@@ -735,7 +735,7 @@ impl Parse for GhostData {
             child_path
         } else { None };
         let ghost_ident = if input.peek2(Token![:]) {
-            GhostIdent::Member(input.parse()?)
+            GhostIdent::Member(parse_member(input)?)
         } else if input.peek2(Brace) {
             let ident: Ident = input.parse()?;
             let content;
@@ -914,7 +914,7 @@ impl Parse for ParentChildFieldAsParsed {
             }
         }
 
-        let this_member: Member = input.parse()?;
+        let this_member: Member = parse_member(input)?;
 
         let ty: Option<syn::Path> = if input.peek(Token![:]) {
             input.parse::<Token![:]>()?;
@@ -998,7 +998,7 @@ impl ChildAttr {
 impl Parse for ChildAttr {
     fn parse(input: ParseStream) -> Result<Self> {
         let container_ty = try_parse_container_ident(input, false);
-        let child_path: Punctuated<Member, Token![.]> = Punctuated::parse_separated_nonempty(input)?;
+        let child_path: Punctuated<Member, Token![.]> = Punctuated::parse_separated_nonempty_with(input, parse_member)?;
         let child_path_str = build_child_path_str(&child_path);
         Ok(ChildAttr { container_ty, child_path: ChildPath { child_path, child_path_str } })
     }
@@ -1401,8 +1401,26 @@ fn peek_member(input: ParseStream) -> bool {
         return true;
     }
 
+    if !peek_integer_or_no_literal(input) {
+        return false;
+    }
+
     let fork = input.fork();
     fork.parse::<syn::Index>().is_ok()
+}
+
+// Asking syn 1 whether the next token is an integer makes it panic ('Unrecognized literal') on literal tokens it predates,
+// such as the C string literal c"..": such a token is never a member, so it is told apart by its text first
+fn peek_integer_or_no_literal(input: ParseStream) -> bool {
+    input.cursor().literal().map_or(true, |(lit, _)| lit.to_string().starts_with(|c: char| c.is_ascii_digit()))
+}
+
+fn parse_member(input: ParseStream) -> Result<Member> {
+    if !peek_integer_or_no_literal(input) {
+        return Err(input.error("expected identifier or integer"));
+    }
+
+    input.parse()
 }
 
 fn peek_container_path(input: ParseStream, can_be_empty: bool) -> bool {
@@ -1420,7 +1438,7 @@ fn peek_ghost_field_name(input: ParseStream) -> bool {
 #[cfg(feature = "syn")]
 fn try_parse_child_parents(input: ParseStream) -> Result<Punctuated<ChildParentData, Token![,]>> {
     input.parse_terminated(|x| {
-        let child_path: Punctuated<Member, Token![.]> = Punctuated::parse_separated_nonempty(x)?;
+        let child_path: Punctuated<Member, Token![.]> = Punctuated::parse_separated_nonempty_with(x, parse_member)?;
         x.parse::<Token![:]>()?;
         let ty = x.parse::<syn::Path>()?;
         Ok(ChildParentData {
@@ -1435,7 +1453,7 @@ fn try_parse_child_parents(input: ParseStream) -> Result<Punctuated<ChildParentD
 #[cfg(feature = "syn2")]
 fn try_parse_child_parents(input: ParseStream) -> Result<Punctuated<ChildParentData, Token![,]>> {
     input.parse_terminated(|x| {
-        let child_path: Punctuated<Member, Token![.]> = Punctuated::parse_separated_nonempty(x)?;
+        let child_path: Punctuated<Member, Token![.]> = Punctuated::parse_separated_nonempty_with(x, parse_member)?;
         x.parse::<Token![:]>()?;
         let ty = x.parse::<syn::Path>()?;
         Ok(ChildParentData {
